@@ -466,6 +466,23 @@ package gnet
 //@     invariant c == c$0 && sent >= 0 && 0 <= rangeindex#2 + 1 && rangeindex#2 + 1 <= len(bs) && pos == len(bs)
 //@     modifies nothing
 //
+// AsyncWrite / AsyncWritev (callable from any goroutine): for a stream connection the request is queued in the high-priority
+// class, the one whose requests run in issue order ahead of everything else; nothing of the connection is touched here.
+//@ func (c *conn) AsyncWrite(buf []byte, callback AsyncCallback) (err error)
+//@   requires c != nil && c.loop != nil && c.loop.poller != nil && (c.isDatagram ==> owner[c.fd] != nil)
+//@   modifies nothing
+//@   stop after (*conn).sendTo #1
+//@   ensures !c.isDatagram ==> trigprio == 0
+//
+//@ func (c *conn) AsyncWritev(bs [][]byte, callback AsyncCallback) (err error)
+//@   requires c != nil && c.loop != nil && c.loop.poller != nil
+//@   modifies nothing
+//@   ensures c.isDatagram ==> err == errorx.ErrUnsupportedOp
+//@   ensures !c.isDatagram ==> trigprio == 0
+//
+// asyncWrite / asyncWritev (the loop side of the above) are conn.write / conn.writev guarded by c.opened; their user
+// callback is a function value, which gvc does not model: not under contract.
+//
 // processIO: one epoll event of a stream connection: write before read, EPOLLRDHUP last; works on stale (closed) connections.
 //@ func (c *conn) processIO(fd int, ev netpoll.IOEvent, flags netpoll.IOFlags) (err error)
 //@   requires c != nil && c.loop != nil && elwf(c.loop) && !c.isDatagram
@@ -588,3 +605,60 @@ package gnet
 //@   stop after len #1
 //@   ensures emptyeng(e) ==> err == errorx.ErrEmptyEngine
 //@   ensures !emptyeng(e) && shutd(e.eng) ==> err == errorx.ErrEngineInShutdown
+
+// ---------------------------------------------------------------------------------------------
+// C08: UDP. One recvfrom(2) per readable event of a UDP listener, one fresh connection object per datagram whose readable
+// bytes are exactly that datagram and whose RemoteAddr reports its source, exactly one OnTraffic for it; Write / SendTo
+// hand exactly the given bytes to one sendto(2) for that source / the given address.
+//@ import socket "github.com/panjf2000/gnet/v2/pkg/socket"
+//@ ghost log ntraffic int
+// DG: what the handler finds in OnTraffic for a datagram.
+//@ pred DG(c *conn) := c != nil && c.isDatagram && c.loop != nil && elwf(c.loop) && owner[c.fd] != nil && addrok(c) &&
+//@     len(c.buffer) == rcvn[c.fd] && (forall i :: 0 <= i && i < len(c.buffer) ==> c.buffer[i] == rcvdata[c.fd][i]) &&
+//@     c.inboundBuffer.rb == nil && len(c.cache) == 0 &&
+//@     (c.remote != nil ==> ref(c.remote) == rcvfrom[c.fd] && socket.udpof(c.remoteAddr, c.remote))
+//
+//@ func newUDPConn(fd int, el *eventloop, localAddr net.Addr, sa unix.Sockaddr, connected bool) (c *conn)
+//@   requires el != nil && (ref(sa) != nil || sa == nil)
+//@   modifies *gfd.monoSeq
+//@   ensures c != nil && fresh(c) && c.fd == fd && c.loop == el && c.isDatagram && !c.opened && c.localAddr == localAddr && socket.udpof(c.remoteAddr, sa) &&
+//@        (connected ? c.remote == nil : c.remote == sa) && c.inboundBuffer.rb == nil && len(c.buffer) == 0 && len(c.cache) == 0 && c.outboundBuffer.ringBuffer.rb == nil
+//
+// sendTo: one datagram with exactly the bytes of buf, to addr if given, else to the connected peer / the datagram's source.
+//@ func (c *conn) sendTo(buf []byte, addr unix.Sockaddr) (n int, err error)
+//@   requires c != nil && owner[c.fd] != nil
+//@   modifies nsnd[c.fd], sndn[c.fd], snddata[c.fd], sndto[c.fd]
+//@   ensures nsnd[c.fd] == old(nsnd[c.fd]) + 1 && sndn[c.fd] == len(buf) && (forall i :: 0 <= i && i < len(buf) ==> snddata[c.fd][i] == buf[i])
+//@   ensures sndto[c.fd] == (addr != nil ? ref(addr) : (c.remote == nil ? nil : ref(c.remote)))
+//@   ensures err == nil ==> n == len(buf)
+//@   ensures err != nil ==> n == 0
+//
+// readUDP: a readable event of a UDP listener (or of a connected client UDP socket).
+//@ func (el *eventloop) readUDP(fd int, ev netpoll.IOEvent, flags netpoll.IOFlags) (err error)
+//@   requires elwf(el) && owner[fd] != nil
+//@   requires has(el.listeners, fd) ==> el.listeners[fd] != nil && ((typeis(el.listeners[fd].addr, "*net.TCPAddr") || typeis(el.listeners[fd].addr, "*net.UDPAddr")) ==> ref(el.listeners[fd].addr) != nil)
+//@   requires !has(el.listeners, fd) ==> reg(el.connections, fd) != nil && reg(el.connections, fd).isDatagram && reg(el.connections, fd).remote == nil &&
+//@        reg(el.connections, fd).fd == fd && reg(el.connections, fd).loop == el && addrok(reg(el.connections, fd)) && reg(el.connections, fd).inboundBuffer.rb == nil && len(reg(el.connections, fd).cache) == 0
+//@   modifies-all-except eventloop, engine, Options, netpoll.Poller, listener, map[int]*listener, ghost:kdata, ghost:kpos, ghost:nopen
+//@   modifies *gfd.monoSeq
+//@   ensures elwf(el)
+//@   ensures nrcv[fd] == old(nrcv[fd]) || nrcv[fd] == old(nrcv[fd]) + 1
+//@   ensures ntraffic - old(ntraffic) == nrcv[fd] - old(nrcv[fd])
+
+// Conn.Write on a datagram connection / Conn.SendTo: exactly one datagram with exactly the given bytes, to the source of the
+// datagram being handled (or the connected peer) / to the given address; an address that cannot be converted sends nothing.
+//@ func (c *conn) Write(p []byte) (n int, err error)
+//@   requires c != nil && c.isDatagram && owner[c.fd] != nil
+//@   modifies nsnd[c.fd], sndn[c.fd], snddata[c.fd], sndto[c.fd]
+//@   ensures nsnd[c.fd] == old(nsnd[c.fd]) + 1 && sndn[c.fd] == len(p) && (forall i :: 0 <= i && i < len(p) ==> snddata[c.fd][i] == p[i])
+//@   ensures sndto[c.fd] == (c.remote == nil ? nil : ref(c.remote))
+//@   ensures err == nil ==> n == len(p)
+//
+//@ func (c *conn) SendTo(p []byte, addr net.Addr) (n int, err error)
+//@   requires c != nil && (c.isDatagram ==> owner[c.fd] != nil) && (ref(addr) != nil || addr == nil)
+//@   modifies nsnd[c.fd], sndn[c.fd], snddata[c.fd], sndto[c.fd]
+//@   ensures !c.isDatagram ==> n == 0 && err == errorx.ErrUnsupportedOp && nsnd[c.fd] == old(nsnd[c.fd])
+//@   ensures c.isDatagram && !(typeis(addr, "*net.IPAddr") || typeis(addr, "*net.TCPAddr") || typeis(addr, "*net.UDPAddr") || typeis(addr, "*net.UnixAddr")) ==> n == 0 && err == errorx.ErrInvalidNetworkAddress && nsnd[c.fd] == old(nsnd[c.fd])
+//@   ensures c.isDatagram && nsnd[c.fd] != old(nsnd[c.fd]) ==> nsnd[c.fd] == old(nsnd[c.fd]) + 1 && sndn[c.fd] == len(p) && sndto[c.fd] != nil &&
+//@        (forall i :: 0 <= i && i < len(p) ==> snddata[c.fd][i] == p[i])
+//@   ensures c.isDatagram && typeis(addr, "*net.UDPAddr") && len(socket.asudp(addr).IP) == 4 && len(socket.asudp(addr).Zone) == 0 ==> nsnd[c.fd] == old(nsnd[c.fd]) + 1
